@@ -29,6 +29,9 @@ type hcase struct {
 	log     []uint64
 	final   string // "?" when unknown
 	smcheck string
+	expBad  bool // hand-written negative case: both checkers must reject it
+	nev     int  // number of events when the case was recorded (-1 = not given)
+	alien   int  // log entries that are not operations of this history (dropped)
 	events  []event
 }
 
@@ -38,7 +41,7 @@ func parseCase(line string) (*hcase, error) {
 	if len(hf) < 2 || hf[1] != "HIST" {
 		return nil, fmt.Errorf("bad case header")
 	}
-	c := &hcase{id: hf[0], final: "?", smcheck: "ok"}
+	c := &hcase{id: hf[0], final: "?", smcheck: "ok", nev: -1}
 	for _, f := range hf[2:] {
 		k, v, _ := strings.Cut(f, "=")
 		switch k {
@@ -56,8 +59,17 @@ func parseCase(line string) (*hcase, error) {
 			c.final = v
 		case "smcheck":
 			c.smcheck = v
+		case "expect":
+			c.expBad = v == "bad"
+		case "nev":
+			n, err := strconv.Atoi(v)
+			if err != nil {
+				return nil, err
+			}
+			c.nev = n
 		}
 	}
+	defer c.normalise()
 	if !found {
 		return c, nil
 	}
@@ -85,6 +97,31 @@ func parseCase(line string) (*hcase, error) {
 		}
 	}
 	return c, nil
+}
+
+// normalise makes every sub-sequence of a recorded case a runnable case (the
+// shrinker of bin/check removes events): log entries whose operation is no longer
+// in the history are dropped, and the recorded final state is only meaningful for
+// the complete history.
+func (c *hcase) normalise() {
+	inv := map[uint64]bool{}
+	for _, e := range c.events {
+		if e.inv {
+			inv[e.id] = true
+		}
+	}
+	var log []uint64
+	for _, id := range c.log {
+		if inv[id] {
+			log = append(log, id)
+		} else {
+			c.alien++
+		}
+	}
+	c.log = log
+	if c.nev >= 0 && c.nev != len(c.events) {
+		c.final = "?"
+	}
 }
 
 type codeTable struct{ completed, timeout, dropped, terminated uint64 }
